@@ -16,6 +16,13 @@ Proof.
   cbn [app remove_first_sinf]. destruct (is_sinf c); [discriminate|]. f_equal. apply IH. exact Ht.
 Qed.
 
+Lemma remove_last_sinf_app l s : remove_last_sinf (l ++ [SESinf s]) = l.
+Proof.
+  induction l as [|c t IH]; [reflexivity|].
+  cbn [app remove_last_sinf]. rewrite existsb_app. cbn [existsb is_sinf orb]. rewrite orb_true_r.
+  cbn [negb]. rewrite andb_false_r. f_equal. exact IH.
+Qed.
+
 Lemma decrypt_traks_notrak l :
   traks_of l = [] -> decrypt_traks l = Ok (l, []).
 Proof.
@@ -74,12 +81,10 @@ Qed.
 Lemma init_roundtrip m iv sch kid psshs ps_ok m' t :
   init_protect m iv sch kid psshs ps_ok = Ok (m', t) ->
   no_pssh m = true ->
-  (forall se, traks_of m = [[se]] -> no_sinf (se_children se) = true) ->
   decrypt_init m' = Ok (m, [Some (sch, Some t)]).
 Proof.
-  unfold init_protect. intros H Hnp Hns.
+  unfold init_protect. intros H Hnp.
   destruct (traks_of m) as [|[|se [|? ?]] [|? ?]] eqn:Et; try discriminate.
-  specialize (Hns se eq_refl).
   unfold protect_entry in H.
   destruct (match se_kind se with
             | SVisual => if supported_visual (se_type se) && ps_ok then Ok tt else Err
@@ -101,7 +106,7 @@ Proof.
     assert (Hty : (se_type se' =? cc_encv) || (se_type se' =? cc_enca) = true)
       by (unfold se'; cbn [se_type]; destruct (se_kind se); reflexivity).
     rewrite Hty. unfold remove_encryption, se'. cbn [se_children se_kind].
-    rewrite last_sinf_app, remove_first_sinf_app by exact Hns. cbn [rbind snd fst si_schm si_frma si_tenc].
+    rewrite last_sinf_app, remove_last_sinf_app. cbn [rbind snd fst si_schm si_frma si_tenc].
     destruct se as [k ty ch]. reflexivity. }
   unfold decrypt_init.
   rewrite (decrypt_traks_one m se se' se (Some (sch, Some t0)) sch psshs Et He).
